@@ -176,6 +176,23 @@ def roundtrip_oracle(req, ans):
     return None
 
 
+def rrset_truth_oracle(req, ans):
+    """C06: the generator's independent reference (computed on the semantic message) is the specification"""
+    c = rrset_gate_oracle(req, ans)
+    if c:
+        return c
+    t = req.split(" ")
+    if len(t) == 4 and t[3].startswith("exp="):
+        exp = t[3][4:]
+        got = ans.replace(" ", ":", 1)
+        if exp.startswith("err:"):
+            if got != exp:
+                return "expected %s, got %s" % (exp, got[:120])
+        elif got != exp:
+            return "record set differs from the CNAME-chain reference: expected %s, got %s" % (exp[:160], got[:160])
+    return None
+
+
 def client_canon(ans):
     """drop the timing fields; mask the (random) message ID at the start of an accepted raw answer"""
     groups = []
@@ -280,7 +297,7 @@ def client_oracle(req, ans):
                     return "timing: query %d re-sent after %d ms, before its timeout (%d ms each)" % (k, t, qt)
                 if t > k * qt + 25 + 8 * k + 40:
                     return "timing: query %d re-sent only after %d ms (timeout %d ms each)" % (k, t, qt)
-            if res == "err:Timeout" and cfg.get("strat") != "tcp" and len(ts) >= 1:
+            if res == "err:Timeout" and cfg.get("strat") != "tcp" and len(ts) >= 1 and f.get("ntcp", "0") == "0":
                 expect = -(-lt // qt)
                 if len(ts) < expect - 1:
                     return "timing: only %d queries sent before the lifetime ended (expected about %d)" % (len(ts), expect)
@@ -733,6 +750,20 @@ PROPS = {
         streams=[dict(name="roundtrip"), dict(name="text", quick=20000), dict(name="name", quick=10000)],
         explanation="C05: parse_agree / check_total / decoded_len theorems; oracle: decode→re-parse must succeed with an equal name, "
                     "encode→decode must return the canonical spelling within 255 octets, encoder and parsers must accept the same strings.",
+    ),
+    "C06": dict(
+        level="proof", module="Rsdns.Props.C06",
+        technique="Lean 4 theorems over arbitrary messages (selection soundness of extract_rrset / extract_cname / the flattening loop, answer-section only, round bound) + independent CNAME-chain reference as ground truth",
+        level_text="Proved for ARBITRARY bytes: every datum from_msg returns is the typed data of an answer-section record of type D and "
+                   "of the question's class whose owner NameRef::eq-equals the final name; the TTL is the minimum of a non-empty "
+                   "selection; each CNAME step consumes exactly one matching answer-section CNAME, so at most #answers+1 rounds "
+                   "(loops end in NoAnswer). Equality with the abstract chain specification (order included) is decided on the "
+                   "implementation by a reference the generator computes on the semantic message.",
+        level_note="PARTIAL proof: `rrset_refines` (equality with the chain specification on well-formed messages) is decided by the "
+                   "ground-truth oracle + correspondence (Props/C06.lean header). Trusted: Lean kernel; model of record_set.rs.",
+        streams=[dict(name="rrset", impl_oracle=rrset_truth_oracle, quick=30000)],
+        explanation="C06: extractRRSet_sound, extractCname_sound, flatten_sound, readAnswerHeaders_section, rrset_from_answers; "
+                    "stream `rrset` with CNAME chains/forks/loops/dangling targets, case variants, decoys in other sections/classes/types.",
     ),
     "C07": dict(
         level="proof", module="Rsdns.Props.C07",
